@@ -87,6 +87,19 @@ CLAIMED.update({
    design='5/C18'),
 })
 
+CLAIMED.update({
+ 'C03': dict(
+   technique='Lean 4 proof: borrowed nodes of the ε-copy result are writer blocks (framing theorem), blocks lie inside the stream (mutual structural induction), and are on their units; allocation measured on the real code under payload scaling',
+   text='Kernel-checked: borrow_sound (every borrowed slice / str / reference of the ε-copy result of a serialized stream is one of the writer blocks — same offset, length and unit — lies between the end of the header and the end of the stream, and its address is a multiple of its unit), vec_borrowed_in_place / string_borrowed_in_place (the result holds the block offset, not a copy, for every length), alloc_payload_independent (model-level allocation count ignores borrowed payloads). The run prints, from the real ε-copy types, pointer − buffer start of every borrowed part and compares with the model offsets; a counting global allocator measures calls and bytes during deserialize_eps for each value and for the same value with every borrowed payload repeated x4, x16, which must be equal.',
+   note='real addresses and allocator bytes are runtime facts: the theorem speaks of offsets and of a model-level count, the harness measures pointers and bytes (partial).',
+   design='5/C03'),
+ 'C06': dict(
+   technique='Lean 4 proof: format clauses pinned as theorems over the model writer (header constants, tag tables, widths, layouts) plus an independent reference encoder (Lean model + XXH3 port) compared byte-for-byte; golden corpus read and re-written on every run',
+   text='Kernel-checked clause by clause: header_layout (cookie, 1.1, pointer width 8, hash words, length-prefixed name), stream_layout, prim_le, string/vec layouts, zero-copy layouts, option/bound/control-flow tag tables, enum_layout (pointer-width variant index), fields_in_order. The run compares every generated stream, both hash feeds (recorded from the real type_hash/align_hash with a recording Hasher) and digests (XXH3 port vs xxhash-rust on 58 lengths) with the model, and for the committed golden corpus (147 files for a fixed universe of definitions) checks that re-serialization reproduces the stored bytes, both deserializers return the stored values and the hash words are unchanged.',
+   note='the corpus was written by the tree at claim time (pinned tree + reader-side fix commits, which do not change written bytes); XXH3 collision-freedom is not claimed.',
+   design='5/C06'),
+})
+
 NOT_YET = {
 }
 
